@@ -311,8 +311,37 @@ func (x *Exec) unknownCall(cfg *Config, f *Frame, tg target, args []Val, dest ss
 		forks = append(forks, pcfg)
 	}
 	res := x.resultVal(cfg, "call!"+sanitize(tg.name), tg.sig)
+	x.recordCallResults(cfg, tg, res)
 	x.finishCall(f, dest, res, isDefer)
 	return forks, false
+}
+
+// recordCallResults keeps the ghost call history of unknown function values:
+// callret(f, k, pos) is result number pos of the k-th call of f (k counts from
+// 0; the call just made has index calls(f)-1). This is the stream a producer
+// yields over successive calls; it assumes nothing about the function.
+func (x *Exec) recordCallResults(cfg *Config, tg target, res Val) {
+	if tg.unknown == nil {
+		return
+	}
+	var rs []Val
+	switch r := res.(type) {
+	case TupV:
+		rs = r
+	default:
+		rs = []Val{res}
+	}
+	calls := x.heapGet(cfg.st, "$calls", SArr(SInt, x.idxSort()))
+	k := Sub(Select(calls, *tg.unknown), x.intLit(1, x.idxSort()))
+	for pos, r := range rs {
+		tv, ok := r.(TV)
+		if !ok {
+			continue
+		}
+		name := fmt.Sprintf("$callret!%d!%s", pos, tv.T.Sort)
+		arr := x.heapGet(cfg.st, name, SArr(SInt, SArr(x.idxSort(), tv.T.Sort)))
+		cfg.st.heap[name] = Store(arr, *tg.unknown, Store(Select(arr, *tg.unknown), k, tv.T))
+	}
 }
 
 func sanitize(s string) string {
